@@ -413,6 +413,13 @@ fn main() {
 		api_block(&mut h, if thorough { 5 } else { 4 });
 		long_run_block(&mut h, if thorough { 4_300_000 } else { 1_100_000 });
 	}
+	// Buffered::get: the window-backed methods at every length and phase; the history wrapper far into a stream
+	{
+		let pmax = (PeriodType::MAX as usize).min(65_535);
+		let ns: Vec<usize> = if pmax > 255 { (1..=40).chain([127, 128, 254, 255, 256, 257, 300, 1000]).collect() } else { (1..=pmax - 1).collect() };
+		h.go(&checks::buffered::BufSys { ns }, &Limits::depth(3000).wall_secs(300), true);
+		h.go(&checks::buffered::HistSys { blocks: if thorough { 1100 } else { 12 } }, &Limits::depth(1200).wall_secs(300), true);
+	}
 	let ks = alpha::k_candles();
 	let d = if thorough { 5 } else { 4 };
 	h.go(&IndSys { cfgs: defaults(), alphabet: ks[..3].to_vec(), maxlen: d, tag: "" }, &Limits::depth(d as u32).wall_secs(600), true);
